@@ -34,8 +34,8 @@ Judge(sg, c) ==
   IN [bad |-> { x \in f : ~isKnown(x) }, known |-> { x \in f : isKnown(x) }]
 (* seek mode (C08): every song x looping on/off x every target at an event time, 5 us after it (inside the look-ahead of
    the seek), in the gap behind it, at 0, at the last event and beyond the end: the model's seek is judged by the seek
-   monitors (position, delivered prefix without note-ons), and with looping off the playback that follows by the suffix
-   monitor *)
+   monitors (position, delivered prefix without note-ons), and the playback that follows by the suffix monitor (looping off)
+   or by the looped suffix monitor PASLF (looping on, target before the loop end) *)
 Targets(sg) == {0, sg.len + 1} \cup UNION { {sg.its[i].t, sg.its[i].t + 5, sg.its[i].t + 50} : i \in DOMAIN sg.its }
 JudgeSeek(sg, c, tgt) ==
   LET c1 == [c EXCEPT !.enabled = [i \in DOMAIN sg.tracks |-> TRUE]]
@@ -43,7 +43,10 @@ JudgeSeek(sg, c, tgt) ==
       ev == [e |-> "Seek", us |-> tgt, tell |-> m.tell, log |-> m.log]
       pl == PlayAfterSeekModel(sg, c.loopEn, c.loopN, tgt, 11)
       f  == SeekCoreFails(ev, sg, c1, 0) \cup
-            (IF ~c.loopEn /\ pl.trunc = 0 /\ tgt <= sg.len THEN PlayAfterSeekFails(pl, sg, c1, m.tell) ELSE {})
+            (IF ~c.loopEn /\ pl.trunc = 0 /\ tgt <= sg.len THEN PlayAfterSeekFails(pl, sg, c1, m.tell)
+             \* looping on (finite count): what a linear looping playback still owes after the target (PASLF)
+             ELSE IF c.loopEn /\ c.loopN >= 0 /\ pl.trunc = 0 /\ tgt <= sg.len THEN PlayAfterSeekLoopFails(pl, sg, c1, m.tell)
+             ELSE {})
   IN [bad |-> f, known |-> {}]
 VARIABLE target
 MCInitSeek == /\ song \in { MkSong([div |-> s.div, fmt |-> s.fmt, tracks |-> s.tracks]) : s \in Songs }
